@@ -14,14 +14,14 @@ COQ = vlib.COQ
 # dependency order
 EVAL_MODEL = ["Eval/EvalTerm.v", "Eval/Gen_EvalRules.v", "Eval/Gen_LambdaRules.v", "Eval/EvalModel.v",
               "Eval/EvalFloat.v", "Eval/LambdaModel.v", "Eval/EvalRun.v"]
-EVAL_PROOFS = ["Eval/EvalIdeal.v", "Eval/EvalSpec.v", "Eval/EvalProofs.v", "Eval/TableProofs.v",
+EVAL_PROOFS = ["Eval/EvalIdeal.v", "Eval/EvalSpec.v", "Eval/TableProofs.v", "Eval/EvalProofs.v", "Eval/AgreeProofs.v",
                "Eval/LambdaProofs.v", "Eval/ReinitProofs.v", "Eval/Witnesses.v"]
-C12_OBLIGATIONS = ["C12/P_evalrule_ideal.v", "C12/P_dispatch_agree_guarded.v", "C12/P_dispatch_agree_refuted.v",
-                   "C12/P_dispatch_pow_ideal.v", "C12/P_maxmin_dup_harmless.v", "C12/P_getargs_ideal.v",
-                   "C12/P_nonvacuous.v"]
-C13_OBLIGATIONS = ["C13/P_lambda_rules_agree_eval.v", "C13/P_lambda_addmul_ideal.v", "C13/P_call_sound.v",
-                   "C13/P_cse_transparent.v", "C13/P_reinit_fresh_fixed.v", "C13/P_reinit_fresh_guarded.v",
-                   "C13/P_reinit_fresh_refuted.v", "C13/P_piecewise_oob_refuted.v", "C13/P_nonvacuous.v"]
+C12_OBLIGATIONS = ["C12/P_evalrule_ideal.v", "C12/P_tables_cover_spec.v", "C12/P_dispatch_agree.v",
+                   "C12/P_dispatch_agree_sem.v", "C12/P_nonvacuous.v"]
+C13_OBLIGATIONS = ["C13/P_lambda_rules_ideal.v", "C13/P_lambda_rules_agree_eval.v", "C13/P_lambda_agree_sem.v",
+                   "C13/P_compile_sound.v", "C13/P_call_sound.v", "C13/P_cse_transparent.v", "C13/P_reinit_fresh.v",
+                   "C13/P_reinit_fresh_guarded.v", "C13/P_reinit_unrepaired_refuted.v",
+                   "C13/P_piecewise_unrepaired_refuted.v", "C13/P_nonvacuous.v"]
 
 
 def existing(files):
@@ -125,7 +125,7 @@ def prepare(ctx, obligations):
     build_coq(ctx, existing(EVAL_PROOFS))
     lap("coq-build")
     ctx.gate(["Base", "Eval", "C12", "C13"])
-    ctx.prove([], existing(obligations))
+    ctx.prove([], obligations)
     lap("obligations")
     drv = ctx.build_driver("eval_driver")
     lap("driver")
